@@ -57,7 +57,8 @@ type socket struct {
 	pingTimeoutTimer  atomic.Pointer[utils.Timer]
 	pingIntervalTimer atomic.Pointer[utils.Timer]
 
-	flushMu sync.Mutex
+	flushMu    sync.Mutex
+	flushAgain atomic.Bool
 }
 
 func (s *socket) Protocol() int {
@@ -356,7 +357,13 @@ func (s *socket) MaybeUpgrade(transport transports.Transport) {
 		// the writability test and the send must not interleave with flush(),
 		// which hands the same pending poll to the write buffer's packets
 		s.flushMu.Lock()
-		defer s.flushMu.Unlock()
+		defer func() {
+			s.flushMu.Unlock()
+			if s.flushAgain.Load() {
+				// a Send found the mutex taken meanwhile
+				s.flush()
+			}
+		}()
 
 		if transports.POLLING == s.Transport().Name() && s.Transport().Writable() {
 			vhook.Yield("socket.upgrade.check")
@@ -519,10 +526,32 @@ func (s *socket) sendPacket(
 }
 
 // Attempts to flush the packets buffer.
+//
+// flush never waits for the flush mutex: its own "flush" and "drain" events
+// are emitted while the mutex is held, and a listener of those events (the
+// usual back-pressure idiom) or a send callback may call Send, i.e. flush,
+// again further down the same call chain. A caller that finds the mutex taken
+// asks the holder for another round instead.
 func (s *socket) flush() {
-	s.flushMu.Lock()
-	defer s.flushMu.Unlock()
+	for {
+		if !s.flushMu.TryLock() {
+			s.flushAgain.Store(true)
+			// the holder may have finished between the two statements above
+			if !s.flushMu.TryLock() {
+				return
+			}
+		}
+		s.flushAgain.Store(false)
+		s.flushOnce()
+		s.flushMu.Unlock()
+		if !s.flushAgain.Load() {
+			return
+		}
+	}
+}
 
+// flushOnce hands the buffered packets to the transport. Called with flushMu held.
+func (s *socket) flushOnce() {
 	if s.ReadyState() != "closed" && s.Transport().Writable() {
 		if wbuf := s.writeBuffer.AllAndClear(); len(wbuf) > 0 {
 			socket_log.Debug("flushing buffer to transport")
